@@ -1,0 +1,6 @@
+//go:build !verif
+
+package litefs
+
+// verifCrashPoint is a no-op unless built with the "verif" tag.
+func verifCrashPoint(op string) {}
